@@ -745,14 +745,22 @@ class Connection(ExportImport):
         if src is not None:
             storage, self._storage = self._storage, src
             try:
-                for oid in creating:
-                    o = self._cache.get(oid)
-                    if (o is not None and o._p_changed is None
-                            and oid in src.index):
-                        try:
-                            o._p_activate()
-                        except Exception:
-                            pass
+                # Loading a state makes new ghosts for objects it refers
+                # to that the cache has dropped: go on until none is left.
+                tried = set()
+                again = True
+                while again:
+                    again = False
+                    for oid in creating:
+                        o = self._cache.get(oid)
+                        if (o is not None and o._p_changed is None
+                                and oid in src.index and oid not in tried):
+                            tried.add(oid)
+                            again = True
+                            try:
+                                o._p_activate()
+                            except Exception:
+                                pass
             finally:
                 self._storage = storage
 
